@@ -440,6 +440,16 @@ func GuardEdges(f *ssa.Function, depth int, accept func(CmpView) (onTrue, onFals
 	return out
 }
 
+var resultDepth int
+
+// PredicateTrueOnlyBelow: the bool function g returns true only when one of the accepted
+// comparisons holds (returned directly, branched on, or decided by a predicate it calls).
+func PredicateTrueOnlyBelow(g *ssa.Function, accept func(CmpView) (bool, bool)) bool {
+	inner := GuardEdges(g, 2, accept)
+	pOK, _ := helperResultBelow(g, "bool", inner, accept)
+	return pOK
+}
+
 // helperResultBelow: with the accepted edges of g removed, is every way of
 // producing a positive (negative) result unreachable?
 func helperResultBelow(g *ssa.Function, kind string, accepted []Edge, accept func(CmpView) (bool, bool)) (posOK, negOK bool) {
@@ -467,6 +477,35 @@ func helperResultBelow(g *ssa.Function, kind string, accepted []Edge, accept fun
 			} else if u, ok := v.(*ssa.UnOp); ok && u.Op == token.NOT {
 				if bo, ok := u.X.(*ssa.BinOp); ok && isCompare(bo.Op) {
 					k, negd = bo, true
+				}
+			}
+			// the result of another predicate of the repository: positive only if that one is
+			if call, ok := v.(*ssa.Call); ok && k == nil && resultDepth < 2 {
+				if h := call.Call.StaticCallee(); h != nil && len(h.Blocks) > 0 && h != g && IsConsulFunc(h) {
+					var bound []*ssa.Parameter
+					for i, q := range h.Params {
+						if i < len(call.Call.Args) {
+							if _, dup := activeBindings[q]; !dup {
+								activeBindings[q] = Bound(call.Call.Args[i])
+								bound = append(bound, q)
+							}
+						}
+					}
+					resultDepth++
+					inner := GuardEdges(h, 1, accept)
+					pOK, nOK := helperResultBelow(h, "bool", inner, accept)
+					resultDepth--
+					for _, q := range bound {
+						delete(activeBindings, q)
+					}
+					anyPos, anyNeg = true, true
+					if !pOK && reach(b) {
+						posOK = false
+					}
+					if !nOK && reach(b) {
+						negOK = false
+					}
+					return
 				}
 			}
 			if k != nil {
@@ -527,7 +566,7 @@ func helperResultBelow(g *ssa.Function, kind string, accepted []Edge, accept fun
 		}
 		expand(ResolveResult(rt, ri), rt.Block(), 0)
 	}
-	return posOK && anyPos && len(accepted) > 0 || posOK && anyPos && onlyDirect(g, ri, kind), negOK && anyNeg && (len(accepted) > 0 || onlyDirect(g, ri, kind))
+	return posOK && anyPos, negOK && anyNeg
 }
 
 // onlyDirect: every return of the bool helper is a comparison value (no
